@@ -3,5 +3,5 @@ From Coq Require Import Extraction ExtrOcamlBasic.
 From CgnsV Require Import Copy.
 Extraction Language OCaml.
 Set Extraction KeepSingleton.
-Extraction "extracted/c09/model.ml" Copy.do_copy_file Copy.rewrite_file Copy.cgnsdiff Copy.full_view Copy.canon
+Extraction "extracted/c09/model.ml" Copy.do_copy_file Copy.rewrite_file Copy.cgnsdiff Copy.cgnsdiff_ds Copy.full_view Copy.canon
   Copy.get_file Copy.set_file Copy.new_root Copy.kids_of Copy.node_name Copy.bytes_ltb.
